@@ -670,7 +670,7 @@ fn run<T: El, N: ArrayLength>(c: &Parsed, orc: &mut Vec<String>) -> Vec<i128> {
 fn run_ty<T: El>(c: &Parsed, orc: &mut Vec<String>) -> Vec<i128> {
     dispatch_len!(
         c.n,
-        [U0, U1, U2, U3, U4, U5, U8, U16, U33],
+        [U0, U1, U2, U3, U4, U5, U8, U16, U33, U1024],
         |N| run::<T, N>(c, orc),
         panic!("length {} not monomorphised", c.n)
     )
@@ -837,6 +837,32 @@ fn main() {
             // thorough: every fault index also for the long arrays (tails/hints fully crossed for N <= 8)
             scripted_cases(n, ty, n <= full_upto, thorough);
             format_cases(n, ty, n <= full_upto || thorough);
+        }
+    }
+    // arrays larger than a page (8-byte elements x 1024): exact, one short, one / two surplus elements, a parse
+    // error and an early end at a few positions; no hints and exact hints
+    {
+        let n = 1024usize;
+        for ty in [1i128, 2, 3] {
+            for m in [n - 1, n, n + 1, n + 2] {
+                let base = ids(10, m);
+                for (h0, mode, p) in [(-1i128, 0i128, 0i128), (n as i128, 1, m as i128), (-1, 2, 7)] {
+                    dist("scripted.N1024");
+                    do_case(mk_case(0, ty, n, h0, mode, p, -2, &base));
+                }
+                for k in [0usize, 1, n / 2, n - 2] {
+                    for bad in [-1i128, -2] {
+                        let mut it = base.clone();
+                        it[k] = bad;
+                        dist("scripted.N1024");
+                        do_case(mk_case(0, ty, n, -1, 0, 0, -2, &it));
+                    }
+                }
+                if ty != 3 {
+                    do_case(mk_case(1, ty, n, -1, 0, 0, -2, &base));
+                    do_case(mk_case(3, ty, n, m as i128, 1, m as i128, -2, &base));
+                }
+            }
         }
     }
     // seeded scripts
